@@ -22,7 +22,9 @@ InitState(r) == SeqRun(SInit(r.cfg.w, r.cfg.h, r.cfg.multi, FALSE, "top"), r.new
 Judge(r) ==
     LET S0 == InitState(r)
         T == Calls(TInit(r.cfg.w, r.cfg.h), r.calls)
-        fs == Finals(S0, r.threads)
+        (* the steady-tick thread, if it ticked at all, is one more caller: a tick of its bar (further ticks repaint the same thing) *)
+        ths == IF r.tbar > 0 /\ r.tticks > 0 THEN Append(r.threads, <<[op |-> "tick", b |-> r.tbar]>>) ELSE r.threads
+        fs == Finals(S0, ths)
         okGet == {S \in fs : GettersOK(S, r.gets)}
         okAll == {S \in okGet : AllRows(T) = FinalRows(S)}
         one == CHOOSE S \in fs : TRUE
